@@ -48,7 +48,7 @@ async fn impl_sql(engine: &QueryEngine, sql: &str) -> String {
     let range = match tr {
         Ok(r) => {
             // the "last hour" default is compared as a symbol
-            if r.end >= before && r.end <= after && r.end - r.start == H {
+            if r.end >= before && r.end <= after && r.end.checked_sub(r.start) == Some(H) {
                 "D".to_string()
             } else {
                 format!("{},{}", r.start, r.end)
@@ -82,7 +82,14 @@ pub fn first_line(s: &str) -> String {
 
 async fn run_unit(engine: &QueryEngine, case: &UnitCase) -> String {
     match case.mode {
-        Mode::Sql => impl_sql(engine, &unit_sql(case)).await,
+        Mode::Sql => {
+            use futures::FutureExt;
+            let sql = unit_sql(case);
+            match std::panic::AssertUnwindSafe(impl_sql(engine, &sql)).catch_unwind().await {
+                Ok(s) => s,
+                Err(_) => "PANIC".to_string(),
+            }
+        }
         Mode::Plan => {
             let c = case.clone();
             match csv_common::catch(std::panic::AssertUnwindSafe(move || impl_plan(&c))) {
